@@ -8,12 +8,13 @@ import re
 
 from .engine import Analysis, CLS, PUBLIC_API
 from .loader import norm
-from .locks import is_logging_stmt, stem, suffix, self_attr
+from .locks import is_logging_stmt, logger_names_in, stem, suffix, self_attr
 from .report import Rule
 from .rules_common import rules_of
 from .rules_common import (MUT, primary, key_matches, showlock, site_text, site_func, site_loc, site_akey,
                            mutation_events, resource_hits, func_nodes)
-from .terms import AnalysisError, show, tag
+from .terms import AnalysisError, show, showv, tag
+from . import facts as F
 
 OBJ_ENTRIES = ["store_object", "tag_object", "delete_object", "delete_if_invalid_object"]
 META_ENTRIES = ["store_metadata", "retrieve_metadata", "delete_metadata", "delete_object"]
@@ -116,6 +117,50 @@ def no_dir_removal_rule(A, rh):
                         "created / verified the directory and is about to move a file into it fails although it holds its own identifier's claim; "
                         "with rmtree (or a wrong emptiness test) the files of other identifiers below it are removed as well",
                         site_loc(A, ev))
+
+
+# ---------------------------------------------------------------------------------------
+def store_tag_claim_rule(A, rule):
+    """C04.j / C07.k: store_object and delete_object exclude each other on a pid by a claim both take themselves; delete_object
+    holds it at every change of the pid's reference files, so store_object must hold it at its own (the tagging happens inside the
+    claim under which the object was written or found present)"""
+    REFS = {"PIDREFS", "CIDREFS"}
+
+    def ref_events(entry, m):
+        it = A.api(entry, m)
+        for ev in it.events:
+            if ev.kind not in MUT:
+                continue
+            cls = {c.cls for cs in ev.classes for c in primary(cs)}
+            if cls & REFS:
+                yield it, ev
+
+    for m in ("th", "mp"):
+        common = None
+        for it, ev in ref_events("delete_object", m):
+            held = {l[0] for l in ev.held_must}
+            common = held if common is None else common & held
+        it_s = A.api("store_object", m)
+        tag_q = A.impl_q("tag_object")
+        own = {r["cls"] for r in it_s.lock_events if r["kind"] == "acquire" and tag_q not in r["ctx"] and r["func"].qual != tag_q}
+        shared = sorted((common or set()) & own)
+        rule.inst(f"[{m}] claims held at every reference change of delete_object and taken by store_object itself: {shared}")
+        rule.ob()
+        if not shared:
+            f0 = A.impl("store_object")
+            rule.fail(f0, "store/delete exclusion claim", "store_object takes no claim itself that delete_object holds at its reference changes: "
+                      "the two calls no longer exclude each other on a pid", A.p.loc(f0, f0.node))
+            continue
+        for it, ev in ref_events("store_object", m):
+            rule.ob()
+            held = {l[0] for l in ev.held_must}
+            rule.inst(f"[{m}] {site_func(ev)}: `{site_text(ev)[:60]}` holds {sorted(held)}")
+            for need in shared:
+                if need not in held:
+                    rule.fail(site_func(ev), site_text(ev), f"store_object changes a reference file after it released (or before it took) its `{need}` claim on the pid: "
+                              "a delete_object of the same pid can run between the decision that the object is present and the tagging, and the pid ends "
+                              "up bound to an object that was removed (or the object is removed under a store that reports success)", site_loc(A, ev),
+                              {"mode": m, "held": sorted(held)})
 
 
 # ---------------------------------------------------------------------------------------
@@ -323,6 +368,10 @@ def check_C07(A: Analysis, tier):
         if True:
             _sh.fail(f.func, f.construct, f.message, f.loc, f.detail)
     rules.append(_sh)
+    rk = Rule("C07", "C07.k", "store_object tags inside its own pid claim: every change it makes to a reference file holds the claim(s) it takes itself and "
+              "that delete_object holds at its reference changes (store/delete exclusion on the pid covers the object decision *and* the tagging)", floor=4)
+    store_tag_claim_rule(A, rk)
+    rules.append(rk)
     rh = Rule("C07", "C07.h", "no call removes a directory of the store's permanent trees: a shard directory is shared by every identifier "
               "with the same prefix, and creating it (makedirs) and moving a file into it is atomic with no claim an rmdir could hold", floor=3)
     no_dir_removal_rule(A, rh)
@@ -504,6 +553,30 @@ def check_C08(A: Analysis, tier):
                "aborts the call in the middle of its clean-up / release sequence", floor=9)
     unbound_reads_rule(A, rg8)
     rules.append(rg8)
+    ri8 = Rule("C08", "C08.i", "a path handed in by the caller (data / metadata argument) is opened only after it tested as a regular file: opening a "
+               "FIFO or device blocks inside the open for ever, with the identifier's claim held, and everything that then touches the identifier waits", floor=2)
+    seen_i = set()
+    for e in PUBLIC_API:
+        it = A.api(e, "th")
+        for ev in it.events:
+            if ev.kind not in ("READ", "WRITE", "CREATE") or not ev.prim.endswith("open") or not ev.paths or not ev.paths[0]:
+                continue
+            if not all(tag(t) == "param" for t in ev.paths[0]):
+                continue
+            ri8.ob()
+            k = (e, ev.func.qual, ev.line)
+            if k in seen_i:
+                continue
+            guarded = any(f_[0] == "probe" and f_[1] == "isfile" and f_[2] == ev.paths[0] and pol is True for f_, pol in ev.facts) \
+                or F.implied(ev.facts, ("probe", "isfile", ev.paths[0], frozenset())) is True
+            ri8.inst(f"{e}: {ev.func.qual}:{ev.line} open({showv(ev.paths[0])[:30]}) " + ("after isfile" if guarded else "unguarded"))
+            if not guarded:
+                seen_i.add(k)
+                ri8.fail(site_func(ev), site_text(ev), f"{e} opens the caller's path `{showv(ev.paths[0])[:40]}` on a path that did not establish os.path.isfile() for it: "
+                         "a named pipe without a writer (or a device) blocks the open for ever"
+                         + (f" while the call holds {sorted(l[0] for l in ev.held_must)}" if ev.held_must else "") + ", so the call never returns",
+                         site_loc(A, ev), {"entry": e})
+    rules.append(ri8)
     return rules
 
 
@@ -629,7 +702,56 @@ def check_C12(A: Analysis, tier):
                 "no `return` (a document that vanished since the listing - another call removed it - is skipped, the others are still removed)", floor=1)
     listing_loop_rule(A, ri12)
     rules.append(ri12)
+    rk12 = Rule("C12", "C12.k", "a `_delete` marker belongs to no call in particular (its name is the document's or reference's, not the caller's) and the "
+                "sweep that removes markers runs after every claim was released: each removal of a marker path therefore tolerates the marker's absence "
+                "(it sits in a try whose handler for OSError or broader does not re-raise)", floor=1)
+    marker_remove_rule(A, rk12, ("delete_metadata", "delete_object", "store_object", "tag_object"))
+    rules.append(rk12)
     return rules
+
+
+_BROAD = {"Exception", "BaseException", "OSError", "IOError", "EnvironmentError", "FileNotFoundError"}
+
+
+def _tolerant_try(node):
+    """is `node` inside the body of a try whose handler for OSError-or-broader completes without re-raising?"""
+    cur, child = getattr(node, "_parent", None), node
+    while cur is not None and not isinstance(cur, (ast.FunctionDef, ast.AsyncFunctionDef, ast.Lambda)):
+        if isinstance(cur, ast.Try) and any(child is b for b in cur.body):
+            for h in cur.handlers:
+                names = set()
+                if h.type is None:
+                    names = {"BaseException"}
+                else:
+                    for t_ in (h.type.elts if isinstance(h.type, ast.Tuple) else [h.type]):
+                        names.add(norm(t_).split(".")[-1])
+                if names & _BROAD and not any(isinstance(x, ast.Raise) for b in h.body for x in ast.walk(b)):
+                    return True
+                if names & _BROAD:
+                    break       # the first matching handler re-raises
+        cur, child = getattr(cur, "_parent", None), cur
+    return False
+
+
+def marker_remove_rule(A, rule, entries):
+    seen = set()
+    for e in entries:
+        it = A.api(e, "th")
+        for ev in it.events:
+            if ev.kind != "REMOVE" or not ev.paths or not any(c.cls == "MARKER" for c in ev.classes[0]):
+                continue
+            k = (ev.func.qual, ev.line)
+            rule.ob()
+            if k in seen:
+                continue
+            seen.add(k)
+            mo = ev.extra.get("missing_ok")
+            tolerant = any(_tolerant_try(n_) for _f, n_ in ev.extra.get("callchain", [(ev.func, ev.node)]) if n_ is not None) or mo is True
+            rule.inst(f"{e}: {ev.func.qual}:{ev.line} {ev.prim} of a marker " + ("(absence tolerated)" if tolerant else "(absence raises)"))
+            if not tolerant:
+                rule.fail(site_func(ev), site_text(ev), f"{ev.prim} of a `_delete` marker outside any handler that absorbs its absence: another call's sweep (which runs "
+                          "after that call released its claims) can remove the same marker between any check and this removal, and this call then fails with "
+                          "FileNotFoundError - an outcome no sequential order of the calls produces", site_loc(A, ev), {"entry": e})
 
 
 def listing_loop_rule(A, rule):
@@ -725,24 +847,37 @@ def _eval_flag(expr, envval):
         return ("env", name, envval if envval is not None else dflt)[2] if True else None
     if isinstance(expr, ast.Call) and isinstance(expr.func, ast.Name) and expr.func.id == "bool" and expr.args:
         return bool(_eval_flag(expr.args[0], envval))
+    if isinstance(expr, ast.Call) and isinstance(expr.func, ast.Attribute) and not expr.args and not expr.keywords \
+            and expr.func.attr in ("lower", "upper", "strip", "title", "capitalize", "casefold", "lstrip", "rstrip"):
+        # a string method on the environment value, computed on the concrete value (`.lower() == "True"` is never true)
+        v = _eval_flag(expr.func.value, envval)
+        if isinstance(v, str):
+            return getattr(v, expr.func.attr)()
+        raise AnalysisError(f"mode flag expression `{ast.unparse(expr)}`: .{expr.func.attr}() of a value that may be None (unset variable without default)")
+    if isinstance(expr, ast.Compare) and len(expr.ops) == 1 and isinstance(expr.ops[0], (ast.In, ast.NotIn)) \
+            and isinstance(expr.comparators[0], (ast.Tuple, ast.List, ast.Set)) and all(isinstance(e, ast.Constant) for e in expr.comparators[0].elts):
+        l = _eval_flag(expr.left, envval)
+        r = l in [e.value for e in expr.comparators[0].elts]
+        return r if isinstance(expr.ops[0], ast.In) else not r
     if isinstance(expr, ast.Constant):
         return expr.value
     raise AnalysisError(f"mode flag expression `{ast.unparse(expr)}` is not in a form the evaluator reads")
 
 
-def _strip_logging(stmts, fresh=False):
+def _strip_logging(stmts, fresh=False, loggers=frozenset()):
     if not fresh:
         # re-parse: the analysed tree carries parent links, copying it would copy the module
+        loggers = logger_names_in(stmts)
         stmts = ast.parse("\n".join(ast.unparse(s) for s in stmts)).body if stmts else []
     out = []
     for s in stmts:
-        if is_logging_stmt(s):
+        if is_logging_stmt(s, loggers):
             continue
         for fld in ("body", "orelse", "finalbody"):
             if hasattr(s, fld) and isinstance(getattr(s, fld), list):
-                setattr(s, fld, _strip_logging(getattr(s, fld), True) or ([ast.Pass()] if fld == "body" else []))
+                setattr(s, fld, _strip_logging(getattr(s, fld), True, loggers) or ([ast.Pass()] if fld == "body" else []))
         for h in getattr(s, "handlers", []) or []:
-            h.body = _strip_logging(h.body, True) or [ast.Pass()]
+            h.body = _strip_logging(h.body, True, loggers) or [ast.Pass()]
         out.append(s)
     return out
 
